@@ -38,7 +38,7 @@ def gen_mixed(rng):
                pd=[[rng.choice([0, 1, 2, 4]) for _ in range(rng.randrange(1, 3))] for _ in range(nm)],
                wc=[rng.choice([1, 1, 2]) for _ in range(nm)],
                pol=[rng.choice(["FIRST_AVAILABLE", "ROUND_ROBIN", "RANDOM"]) for _ in range(nm)],
-               second_source=rng.random() < 0.3, horizon=rng.choice([40, 80, 120]), rseed=rng.randrange(10 ** 6))
+               second_source=rng.random() < 0.45, extra_first=rng.random() < 0.6, horizon=rng.choice([40, 80, 120]), rseed=rng.randrange(10 ** 6))
     if not src_blocking and edges[0]["kind"] in ("cbelt", "slot"): edges[0] = dict(kind="buffer", cap=2, delay=0, mode="FIFO")
     return cfg
 
@@ -88,12 +88,18 @@ def build_and_run(cfg):
                     in_edge_selection=cfg["pol"][j], out_edge_selection="FIRST_AVAILABLE")
         ms.append(m); nodes.append(m)
     sink = Sink(env, "K"); nodes.append(sink)
+    extra = None
+    if cfg.get("second_source") and cfg.get("extra_first"):
+        # the Buffer from the second source becomes in-edge 0 of the first machine: the Fleet / conveyor edge is then a
+        # non-first in-edge, whose granted reservations a FIRST_AVAILABLE consumer cancels
+        extra_e = Buffer(env, "EX", capacity=2, delay=0)
+        s2 = Source(env, "S1", inter_arrival_time=cyc([3, 5]), blocking=True, item_length=1)
+        extra_e.connect(s2, ms[0]); nodes.append(s2); extra = (s2, extra_e)
     edges[0].connect(src, ms[0])
     for j in range(cfg["nm"]):
         dst = ms[j + 1] if j + 1 < cfg["nm"] else sink
         edges[j + 1].connect(ms[j], dst)
-    extra = None
-    if cfg.get("second_source"):
+    if cfg.get("second_source") and not cfg.get("extra_first"):
         extra_e = Buffer(env, "EX", capacity=2, delay=0)
         s2 = Source(env, "S1", inter_arrival_time=cyc([3, 5]), blocking=True, item_length=1)
         extra_e.connect(s2, ms[0]); nodes.append(s2); extra = (s2, extra_e)
